@@ -1650,7 +1650,11 @@ func sameMapValue(a, b ssa.Value) bool {
 	}
 	ua, ok1 := a.(*ssa.UnOp)
 	ub, ok2 := b.(*ssa.UnOp)
-	return ok1 && ok2 && ua.Op == token.MUL && ub.Op == token.MUL && ua.X == ub.X
+	if ok1 && ok2 && ua.Op == token.MUL && ub.Op == token.MUL && ua.X == ub.X {
+		return true
+	}
+	// the map is a member read twice (`v.m[k]` … `v.m[k] = x`): no common subexpressions in SSA, compare by structure
+	return sameSSAExpr(a, b, 3)
 }
 
 // c04SiblingSkipGuards (SIBLING-SKIP-GUARDS): the FILE/PACKAGE, WIRE_JSON and WIRE variants of one check differ in
